@@ -250,3 +250,34 @@ func verifLemmaUint64RoundTrip(i uint64) (x uint64, rest []byte, err error) {
 //@   ensures err == nil && k == Byte ==> v != 0 && v == s.byteval
 //@   ensures err == nil && k == String ==> sz <= maxbits / 8 && (sz >= 1 ==> v >= 128) && (sz >= 2 ==> v >= pow256(sz - 1)) && (sz == 0 ==> v == 0)
 //@   ensures err == nil ==> k == Byte || k == String
+
+// decodeBigInt / ReadUint256: what reaches SetBytes is the shortest form - never a leading zero
+// byte, a single byte below 0x80 only when it came as the byte itself, exactly the announced
+// number of bytes; a list is refused, and a uint256 longer than 32 bytes is refused.
+//@ func (s *Stream) decodeBigInt(dst *big.Int) (err error)
+//@   serves C01
+//@   mutates
+//@   noframe
+//@   ghostvar k int = 0
+//@   ghostvar sz int = 0
+//@   ghostvar set bool = false
+//@   oncall Kind: k = result0; sz = result1
+//@   oncall SetBytes: set = true
+//@   atcall SetBytes requires len(arg2) > 0 ==> arg2[0] != 0
+//@   atcall SetBytes requires k == Byte ==> len(arg2) == 1
+//@   atcall SetBytes requires k == String ==> len(arg2) == sz && (sz == 1 ==> arg2[0] >= 128)
+//@   ensures err == nil ==> k != List && set
+
+//@ func (s *Stream) ReadUint256(dst *uint256.Int) (err error)
+//@   serves C01
+//@   mutates
+//@   noframe
+//@   ghostvar k int = 0
+//@   ghostvar sz int = 0
+//@   ghostvar set bool = false
+//@   oncall Kind: k = result0; sz = result1
+//@   oncall SetBytes: set = true
+//@   atcall SetBytes requires len(arg2) > 0 ==> arg2[0] != 0
+//@   atcall SetBytes requires k == Byte ==> len(arg2) == 1
+//@   atcall SetBytes requires k == String ==> len(arg2) == sz && sz <= 32 && (sz == 1 ==> arg2[0] >= 128)
+//@   ensures err == nil ==> k != List && set
